@@ -178,6 +178,9 @@ func (c *Concretiser) Bytes(m M) []byte {
 	case "Stuffed":
 		return c.stuffing()
 	case "Cancel":
+		if c.Rng.Intn(2) == 0 { // realistic small process ids and keys (they contain zero bytes)
+			return pgw.Cancel(uint32(c.Rng.Intn(70000)), uint32(c.Rng.Intn(70000)))
+		}
 		return pgw.Cancel(c.Rng.Uint32(), c.Rng.Uint32())
 	case "p":
 		if _, has := m["pwd"]; !has {
@@ -260,11 +263,11 @@ func (c *Concretiser) Bytes(m M) []byte {
 		}
 		return pgw.Bind(S(m, "portal"), S(m, "stmt"), int16s(L(m, "pfmt")), params, int16s(L(m, "rfmt")))
 	case "D":
-		return pgw.Describe(S(m, "kind")[0], S(m, "name"))
+		return pgw.Describe(kindByte(S(m, "kind")), S(m, "name"))
 	case "E":
 		return pgw.Execute(S(m, "portal"), uint32(I(m, "max")))
 	case "C":
-		return pgw.Close(S(m, "kind")[0], S(m, "name"))
+		return pgw.Close(kindByte(S(m, "kind")), S(m, "name"))
 	case "H":
 		return pgw.Flush()
 	case "S":
@@ -462,4 +465,16 @@ func (c *Concretiser) stuffing() []byte {
 		"prog": []any{M{"op": "complete", "tag": "INJECTED"}, M{"op": "ret", "r": "nil"}}}}}
 	b := pgw.Startup(pgw.Version30, [][2]string{{"user", "mallory"}}, true)
 	return append(b, pgw.Query("q9999")...)
+}
+
+// kindByte: the target byte of Describe / Close; "z" stands for a zero byte,
+// "hi" for a byte beyond ASCII (neither 'S' nor 'P').
+func kindByte(k string) byte {
+	switch k {
+	case "z":
+		return 0
+	case "hi":
+		return 0xfe
+	}
+	return k[0]
 }
